@@ -10,7 +10,7 @@
 (* Property / a name that also belongs to a sub-Section, dependency values *)
 (* matching the first / a later / no value, dependency targets with text / *)
 (* int / no values, cardinalities met and unmet, values inconsistent with  *)
-(* the dtype; validated from the document, a Section and a Property.       *)
+(* the dtype (also n-tuples with one- and two-digit n); validated from the document, a Section and a Property.       *)
 (***************************************************************************)
 EXTENDS Naturals, Sequences, FiniteSets, TLC, Json
 CONSTANTS MaxMut
@@ -30,7 +30,7 @@ Mut(x) ==
                        {[f |-> c, v |-> v] : c \in {"scard", "pcard"}, v \in {"max1", "min1", "min3", "1to1", "1to2", "2to2"}}
     ELSE {[f |-> "dep", v |-> d] : d \in {"a", "b", "zz"}} \cup
          {[f |-> "depval", v |-> d] : d \in {"first", "later", "part", "other"}} \cup
-         {[f |-> "vals", v |-> d] : d \in {"ints", "empty", "one"}} \cup
+         {[f |-> "vals", v |-> d] : d \in {"ints", "empty", "one", "tup2", "tup12", "tup2bad", "tup12bad"}} \cup
          {[f |-> "vcard", v |-> v] : v \in {"max1", "min1", "min3", "1to1", "1to2", "2to2"}} \cup
          {[f |-> "dtypeok", v |-> FALSE]})
 Next == /\ nmut < MaxMut /\ nmut' = nmut + 1
